@@ -3,6 +3,7 @@
 use crate::{HealthCheckConfig, HealthCheckedContext, HealthChecker, HealthDetail, HealthStatus};
 use std::sync::atomic::AtomicUsize;
 use std::sync::Arc;
+#[cfg_attr(feature = "verif-hooks", allow(unused_imports))]
 use std::time::{SystemTime, UNIX_EPOCH};
 use tokio::sync::RwLock;
 use tokio::task::JoinHandle;
@@ -138,10 +139,14 @@ where
                         };
 
                         // Update timestamp
+                        #[cfg(not(feature = "verif-hooks"))]
                         let now = SystemTime::now()
                             .duration_since(UNIX_EPOCH)
                             .unwrap()
                             .as_millis() as u64;
+                        // simulation: the wall clock is outside the simulator (no logic reads this stamp)
+                        #[cfg(feature = "verif-hooks")]
+                        let now = 0u64;
                         ctx_clone.set_last_check(now);
 
                         // Get old status for event callback and triggers
